@@ -143,6 +143,7 @@ pub fn run(ctx: &mut Ctx) {
     exhaustive_meta(ctx, &meta);
     weakening(ctx, &univ);
     random(ctx);
+    company(ctx);
     scheme(ctx);
     full_regex(ctx);
 }
@@ -584,6 +585,125 @@ fn random(ctx: &mut Ctx) {
                     if got != exp {
                         let sig = classify(anchor, &rhost, got, exp, &url, &req_host);
                         ctx.violation(sub, idx, &sig, json!({"rule": line, "url": url, "engine": got, "reference": exp}));
+                    }
+                }
+            }
+        }
+    }
+}
+
+/// A pattern in the company of its textual relatives (extended, shortened, last character
+/// changed; same anchors, same options, hence same bucket and fusion group) inside an optimised
+/// engine: the engine must match exactly when one of the rules' patterns matches by the
+/// reference. Only disagreements that no single rule shows on its own are reported here.
+fn company(ctx: &mut Ctx) {
+    let sub = "company";
+    let cases = ctx.n(60_000, 4_000_000);
+    for idx in 0..cases {
+        if ctx.stop() {
+            break;
+        }
+        if !ctx.begin_case(sub, idx) {
+            continue;
+        }
+        let seed = ctx.seed;
+        let res = guarded(|| {
+            let mut r = Rng::for_case(seed, "c02.company", idx);
+            let (anchor, rhost, body) = gen_pattern(&mut r);
+            let mut bodies = vec![body.clone()];
+            for _ in 0..1 + r.below(3) {
+                let base = r.pick(&bodies).clone();
+                let v = match r.below(3) {
+                    0 => format!("{}{}", base, r.ps(&["b", "?1", ".gif", "2", "/x", "^", "*z"])),
+                    1 if base.len() > 2 => base[..base.len() - 1].to_string(),
+                    _ if !base.is_empty() => format!("{}{}", &base[..base.len() - 1], r.ps(&["a", "b", "/", "."])),
+                    _ => continue,
+                };
+                if v.is_char_boundary(v.len()) && !degenerate(anchor, &v) && v.len() + rhost.len() >= 2 && !bodies.contains(&v) {
+                    bodies.push(v);
+                }
+            }
+            if bodies.len() < 2 {
+                return vec![];
+            }
+            let lines: Vec<String> = bodies.iter().map(|b| spell(anchor, &rhost, b)).collect();
+            let fs: Vec<Option<NetworkFilter>> = lines.iter().map(|l| NetworkFilter::parse(l, true, Default::default()).ok()).collect();
+            if fs.iter().any(|f| f.is_none()) {
+                return vec![];
+            }
+            let optimize = r.chance(4, 5);
+            let e = adblock::Engine::from_rules_parametrised(&lines, Default::default(), true, optimize);
+            let mut rm = RegexManager::default();
+            let mut out = vec![];
+            let host_anchored = matches!(anchor, Anchor::Host | Anchor::HostRight);
+            for k in 0..8 {
+                let b = &bodies[k % bodies.len()];
+                let inst = instantiate(&mut r, b);
+                let scheme = r.ps(&["http", "https", "https", "ws"]);
+                let host = if host_anchored && r.chance(3, 4) {
+                    match r.below(3) {
+                        0 => format!("sub.{}", rhost),
+                        _ => rhost.clone(),
+                    }
+                } else {
+                    r.ps(gen::HOSTS).to_string()
+                };
+                if !host.contains('.') {
+                    continue;
+                }
+                let path = if host_anchored {
+                    inst.clone()
+                } else {
+                    match r.below(4) {
+                        0 => format!("/lo{}", inst),
+                        1 => format!("/{}er", inst),
+                        _ => format!("/{}", inst),
+                    }
+                };
+                let path = if path.starts_with('/') { path } else { format!("/{}", path.trim_start_matches(|c| c == '^' || c == '*')) };
+                let mut url = format!("{}://{}{}", scheme, host, path);
+                if (anchor == Anchor::Left || anchor == Anchor::Both) && inst.contains("://") && r.chance(1, 2) {
+                    url = inst.clone();
+                }
+                let ty = if scheme.starts_with("ws") { "websocket" } else { "image" };
+                let rq = match Request::new(&url, "https://zz.zz/", ty) {
+                    Ok(rq) => rq,
+                    Err(_) => continue,
+                };
+                let lower = rq.url.to_ascii_lowercase();
+                let req_host = rq.hostname.clone();
+                if !lower[lower.find("://").map(|i| i + 3).unwrap_or(0)..].starts_with(&req_host) {
+                    continue;
+                }
+                let mut want = false;
+                let mut singles_agree = true;
+                for (b, f) in bodies.iter().zip(fs.iter()) {
+                    let exp = reference(anchor, &rhost, &b.to_ascii_lowercase(), &lower, &req_host);
+                    let got = f.as_ref().unwrap().matches(&rq, &mut rm);
+                    want |= exp;
+                    singles_agree &= exp == got;
+                }
+                let got = e.check_network_request(&rq).matched;
+                out.push((lines.clone(), lower, got, want, singles_agree, optimize));
+            }
+            out
+        });
+        match res {
+            Err(sig) => ctx.violation(sub, idx, &format!("C02:{}", sig), json!({})),
+            Ok(v) => {
+                for (lines, url, got, want, singles_agree, optimize) in v {
+                    ctx.eval();
+                    if want {
+                        ctx.nontrivial(fnv(&format!("{:?}|{}", lines, url)));
+                        ctx.obs("company_reference_matches", 1);
+                    }
+                    if got != want && singles_agree {
+                        ctx.violation(
+                            sub,
+                            idx,
+                            if want { "C02:pattern-lost-in-company" } else { "C02:pattern-gained-in-company" },
+                            json!({"rules": lines, "optimize": optimize, "url": url, "engine_matched": got, "some_rule_matches_by_reference": want}),
+                        );
                     }
                 }
             }
